@@ -51,6 +51,10 @@ def fire(ident: str, step: str, extra=None):
                        spawns=len(sim.spawns))
     ev['n_spawns'] = len(sim.spawns)
     ev['n_sandboxes'] = len(sim.sandboxes)
+    if sim.plan.get('observe_sbx') and sim.sandboxes and step in ('main', 'prepare', 'execute'):
+        from . import observers
+        ev['sbx_obs'] = observers.observe('sbx', sim, None)
+        sim.ev('obs', id=ident, step=step, obs=sim.world.norm(ev['sbx_obs']))
     sim.trace.append(ev)
     f = sim.faults.get((ident, step))
     if f is None:
